@@ -10,19 +10,16 @@ type Subscription { a: Query b: Query x: Int s: Subscription }
 directive @defer(label: String, if: Boolean! = true) on FRAGMENT_SPREAD | INLINE_FRAGMENT
 """
 
-# known-finding classes (narrow, decidable on the case)
-CLS_OVERFLOW = "selection_set_recursion_unguarded"
 
-
-def staged(ctx, impl, model, family, dump_family, sources, compare=None):
+def staged(ctx, impl, model, family, dump_family, sources, compare=None, extra=None):
     """two-stage tie: the real parser/builder dumps the AST/Schema of each source text; the model family
-    receives the dump, the implementation family the text."""
+    receives the dump, the implementation family the text (`extra`: a further field for the model)."""
     dumps = run_family(impl, dump_family, [hexs(t) for _, t in sources])
     cases, labels = [], {}
     for d, (label, text) in zip(dumps, sources):
         if not (d.startswith("ok ") or d.startswith("errors ")):
             raise MachineryError(f"{dump_family} failed on {label}: {d[:200]}")
-        c = f"{d.split(' ')[-1]} {hexs(text)}"
+        c = f"{d.split(' ')[-1]} {hexs(text)}" + (f" {extra}" if extra else "")
         cases.append(c)
         labels[c] = label
     rows = ctx.correspond(impl, model, family, cases, compare=compare,
@@ -101,7 +98,7 @@ def pipeline_cases(ctx, quick, graph_sources):
         add("malformed-schema", m, "{ x }")
         add("malformed-doc", "type Query { x: Int a: Query }", m)
     for label, s, d, depth in G.overflow_sources(quick):
-        add(label, s, d, spread_depth=depth)
+        add(label, s, d)
     return cases
 
 
@@ -122,6 +119,8 @@ def expect_rl(label):
         return int(label.rsplit("-", 1)[1]) > 500 and "-f-" not in label and "-fi-" not in label
     if label.startswith("deep-selection-") or label.startswith("deep-inline-"):
         return int(label.rsplit("-", 1)[1]) >= 500
+    if label.startswith("overflow-") and not label.startswith("overflow-leaf-first-"):
+        return True     # fragments x nesting > 500: validate_selection_set (and the deduplicating walk) stop at their limit
     return False
 
 
@@ -132,12 +131,7 @@ def run_pipeline(ctx, impl, model, cases, family_label="c21_pipeline", timeout=1
         lines.append(line)
         meta[line] = dict(m, label=label)
 
-    def classify(c, iobs, mobs):
-        if (iobs.startswith("died") or iobs == "timeout") and meta[c].get("spread_depth", 0) > 500:
-            return CLS_OVERFLOW
-        return None
-
-    rows = ctx.correspond(impl, model, "c21_pipeline", lines, classify=classify,
+    rows = ctx.correspond(impl, model, "c21_pipeline", lines,
                           compare=lambda i, m: i.startswith("ok "),
                           nontrivial=lambda c, o: True,
                           describe=lambda c: "%s (stack %s KiB)\n--- schema\n%s\n--- document\n%s" % (
@@ -193,14 +187,27 @@ def run(ctx):
     count_verdicts(ctx, "gd_dir_cycle", rows)
     rows, _ = staged(ctx, impl, model, "gd_frag_cycle", "c21_ast_dump", sources["frag"])
     count_verdicts(ctx, "gd_frag_cycle", rows)
-    # walks: the model also says whether a @defer walk of validate_defer ended with the limit error
+    # walks: the model gets the schema as the real builder built it (typing of validate_selection_set); it also
+    # says how many operations had their selection validation stopped by the depth limit and whether a @defer
+    # walk of validate_defer ended with the limit error
+    sdump = run_family(impl, "c21_schema_dump", [hexs(EXEC_SCHEMA)])[0]
+    if not sdump.startswith("ok "):
+        raise MachineryError("c21_schema_dump failed on the fixed schema: " + sdump[:200])
     rows, labels = staged(ctx, impl, model, "gd_walk", "c21_ast_dump", sources["walk"],
-                          compare=lambda i, m: i == m.rsplit(" ", 1)[0])
+                          compare=lambda i, m: i == m.rsplit(" ", 2)[0], extra=sdump.split(" ")[-1])
     fam = ctx.cov["families"]["gd_walk"]
     for c, i, m in rows:
         f = dict(x.split("=") for x in m.split(" "))
-        for k in ("rec", "used", "defer_root", "uncond", "trunc"):
+        for k in ("rec", "used", "defer_root", "uncond", "undef", "sel", "trunc"):
             fam[k] = fam.get(k, 0) + int(f[k])
+        if f["sel"] != "0":
+            fam["selection_limit_documents"] = fam.get("selection_limit_documents", 0) + 1
+            if i.startswith("rec=0 "):
+                # oracle (C21_selection_limit_reported)
+                ctx.oracle_failures += 1
+                ctx.violation({"family": "gd_walk", "case": c, "case_readable": labels[c] + ": " + unhexs(c.split(" ")[1])[:3000],
+                               "impl": i, "model": m,
+                               "what": "selection validation deeper than its limit and no RecursionError diagnostic"})
         if f["trunc"] == "1":
             fam["defer_limit_alone"] = fam.get("defer_limit_alone", 0) + (f["used"] == "0")
             if i.startswith("rec=0 used=0"):
@@ -245,7 +252,14 @@ def run(ctx):
         "texts plus nesting around the parser's limit, malformed token sequences (all of length <= 2 over 30 tokens, "
         "length 3 over 14; quick tier: a stride) and one-token edits of 10 definitions, renderer corner cases; each case "
         "parse -> build -> validate -> serialize x3 -> re-validate -> introspect -> render (plain, colour, JSON) in a "
-        "thread with a 1 MiB stack (thorough: also 512 KiB, and the debug build with 8 MiB). Every case counts as non-trivial.")
+        "thread with a 1 MiB stack (thorough: also 512 KiB, and the debug build with 8 MiB); among them chains of up to 99 "
+        "fragments each nesting up to 480 fields or inline fragments (the witnesses of the former finding "
+        "selection_set_recursion_unguarded: 50 x 100 in the quick tier, 99 x 400 in the thorough tier), which must come back "
+        "with a recursion-limit diagnostic instead of killing the worker. gd_walk also compares the number of "
+        "RecursionError diagnostics of validate_selection_set (chains of fragments around depth 500 through fields, inline "
+        "fragments and both; subtrees the walk must not enter: missing sub-selection, non-composite type condition, "
+        "cyclic fragment; fragments validated once per operation) and of UndefinedFragment diagnostics. "
+        "Every case counts as non-trivial.")
     ctx.cov["exhaustive"] = False
     ctx.assumptions += [
         "strength is PARTIAL by construction: only the guard mechanisms, the guarded traversals and the sort have a model; "
@@ -253,6 +267,9 @@ def run(ctx):
         "std's sort_by_key is trusted to be a stable sort (modelled as insertion sort); ariadne's renderer is only exercised",
         "detect_fragment_cycles is modelled on the pre-order sequence of spreads of each fragment (fields and inline "
         "fragments pass the same guard and propagate every error)",
+        "validate_selection_set is modelled as far as it decides where to descend (type_field, leaf check, type conditions, "
+        "cycle check, validated_fragments) and what it counts (DepthGuard, UndefinedFragment); the generated documents "
+        "select only fields the schema defines (from_ast drops the others before validation sees them)",
         "FindRecursiveDirective terminates only if no built-in type is an input object (true of built_in_types.graphql; "
         "is_built_in is decided by FileId::BUILT_IN, which parsed texts cannot carry)",
     ]
